@@ -40,6 +40,18 @@ def run(rep):
             "exhaustive": True,
             "trusted_base": TRUSTED,
         })
+    # "NextToken called again after EOF keeps returning EOF", seen from the consumer: the parser's token window must stay at
+    # EOF too once the input is exhausted -- every token prefix of corpus statements must be parsed within the step bound
+    import searchcommon
+    b3 = verif.build_topic(go_pkgs=("psearch",))
+    broken += b3
+    if not b3:
+        thits, tn = searchcommon.run_truncations(rep, 1500 if rep.tier == "quick" else 0)
+        rep.coverage["truncated_statements_parsed"] = tn
+        for (stt, hx, detail, tk, steps) in thits[:5]:
+            found = True
+            rep.violation("input", "Parse does not terminate on a truncated statement (the token stream past the end of input is not a sticky EOF): %s tokens=%d steps=%d" % (stt, tk, steps),
+                          {"input_hex": hx, "tokens": tk, "steps": steps}, input_hex=hx)
     verif.report_broken(rep, broken, found)
     rep.assumptions = ASSUME
 
